@@ -37,8 +37,29 @@ def workdir(pid, fresh=False):
     return d
 
 
+MEM_LIMIT_GB = int(os.environ.get('VERIF_MEM_GB', '20'))
+
+
+def limit_memory():
+    """soft address-space limit for this process and the workers forked from it: a runaway implementation (e.g. a cache that grows with
+    every call) ends in a MemoryError - an observable outcome - instead of the kernel killing the harness; TLC subprocesses lift the
+    limit again (run_tlc)"""
+    import resource
+    soft, hard = resource.getrlimit(resource.RLIMIT_AS)
+    want = MEM_LIMIT_GB << 30
+    if soft == resource.RLIM_INFINITY or soft > want:
+        resource.setrlimit(resource.RLIMIT_AS, (want, hard))
+
+
+def _unlimit_memory():
+    import resource
+    soft, hard = resource.getrlimit(resource.RLIMIT_AS)
+    resource.setrlimit(resource.RLIMIT_AS, (hard, hard))
+
+
 def use_repo():
     """Import segno from /repo's current working tree."""
+    limit_memory()
     if sys.path[0] != REPO:
         sys.path.insert(0, REPO)
     os.environ.setdefault('HEUER_SEGNO_VERIF', '1')
@@ -71,7 +92,7 @@ def run_tlc(module, cfg=None, env=None, workers=1, metadir=None, timeout=1800, x
     e.update(env or {})
     t0 = time.time()
     try:
-        p = subprocess.run(cmd, cwd=SPEC, env=e, stdout=subprocess.PIPE, stderr=subprocess.STDOUT, timeout=timeout)
+        p = subprocess.run(cmd, cwd=SPEC, env=e, stdout=subprocess.PIPE, stderr=subprocess.STDOUT, timeout=timeout, preexec_fn=_unlimit_memory)
     except subprocess.TimeoutExpired:
         raise MachineryError(f'TLC timed out after {timeout}s on {module}')
     finally:
